@@ -93,7 +93,10 @@ def plan(tier, seed):
         kinds = {"rand-cart": 120000, "rand-cyl": 40000, "struct": 40000}
         per = 5000
     out += common.shards(kinds, per_shard=per, tier=tier, seed=seed)
-    return out
+    _out = out
+    if tier == "thorough":
+        _out = _out + [common.suite_shard(ID, tier, seed)]  # the repository's own tests under this monitor
+    return _out
 
 
 # ------------------------------------------------------------------ oracle
@@ -479,6 +482,9 @@ def run(case, rec):
 
 
 def run_shard(spec, rec):
+    if spec["kind"] == "suite":
+        common.run_suite(ID, rec)
+        return
     from droplets import emulsions
     from droplets import image_analysis as ia
 
